@@ -8,6 +8,7 @@ package ircserver
 
 import (
 	"fmt"
+	"runtime"
 	"runtime/debug"
 	"time"
 
@@ -94,6 +95,8 @@ type VStep struct {
 	Err   error
 	Panic interface{}
 	Stack string
+	// Spawned: goroutines that existed right after the entry was applied and did not before
+	Spawned int
 }
 
 // VInst is a server instance together with the history that produced it.
@@ -145,7 +148,20 @@ func (in *VInst) Apply(e VEntry) (st VStep) {
 			st.Stack = string(debug.Stack())
 		}
 	}()
+	g0 := runtime.NumGoroutine()
 	reply, err := VerifApply(in.Srv, e.Msg())
+	// The state machine does all its work on the applying goroutine.  Should an entry start one, it is counted
+	// (C01 reports it) and given the chance to finish before anybody looks at the state: the harness reads the
+	// state without locks.
+	if n := runtime.NumGoroutine() - g0; n > 0 {
+		st.Spawned = n
+		for k := 0; k < 2000 && runtime.NumGoroutine() > g0; k++ {
+			runtime.Gosched()
+			if k > 100 {
+				time.Sleep(10 * time.Microsecond)
+			}
+		}
+	}
 	st.Err = err
 	if reply != nil {
 		st.Msgs = reply.Messages
